@@ -22,7 +22,7 @@ def all_ids():
 
 def sample_cfg(rng, tier, t_min=0, m_min=1, m_max=None, prss=None, weights=None):
     if m_max is None:
-        m_max = 5 if tier == 'quick' else 7
+        m_max = 7     # constants such as binom(m, t) PRSS subsets and the x-coordinates matter: all m at both tiers
     pool = weights or [1, 2, 2, 3, 3, 3, 3, 4, 4, 5, 5, 6, 7]
     pool = [m for m in pool if m_min <= m <= m_max and (m - 1) // 2 >= t_min]
     m = rng.choice(pool)
